@@ -241,6 +241,14 @@ func (h *storeHarness) op(f []string) (res string) {
 			df = "raw"
 		}
 		return vf + "/" + df
+	case "bulk": // bulk <start> <limit>: the keys GetBulkIterator(start, limit) visits, in order
+		it := h.s.GetBulkIterator(vu64(f[1]), vu64(f[2]))
+		defer it.Release()
+		var ks []string
+		for it.Next() {
+			ks = append(ks, vhex(it.Key()))
+		}
+		return strings.Join(ks, " ")
 	case "keys":
 		it := h.s.db.NewIterator(nil, nil)
 		defer it.Release()
